@@ -157,7 +157,7 @@ Definition parse_settings (f : str) : option geo :=
   | [c; a; b] =>
       let bits := nat_of_str b in
       Some (empty_geo (nat_of_str c) (nat_of_str a)
-                      {| fx_rename := Nat.odd bits; fx_split := Nat.odd (bits / 2); fx_nbr := Nat.odd (bits / 4) |})
+                      {| fx_rename := Nat.odd bits; fx_split := Nat.odd (bits / 2); fx_nbr := Nat.odd (bits / 4); fx_check := Nat.odd (bits / 8) |})
   | _ => None
   end.
 
